@@ -306,3 +306,47 @@ Example chunk_table_two_sources :
   chunk_table [mkcs 1048576 (Some [0; 0; 32768]); mkcs 65536 None; mkcs 0 (Some [0]); mkcs 0 None] =
   [[1048576; 1048576; 32768]; [65536; 65536; 32768]; [65536]; [65536]].
 Proof. reflexivity. Qed.
+
+(* ------------------------------------------------------------------ *)
+(* what a source's store ignores                                          *)
+
+Lemma ignore_row_own_from : forall pre pinc pign ptags s post inc ign t,
+  is_lists s = Some (inc, ign) -> is_tags s = Some t ->
+  nth (length pre) (ignore_table_from pinc pign ptags (pre ++ s :: post)) ([], []) =
+  (inc, ign ++ [STD_LCK; STD_DISABLED] ++ map fst (filter snd t)).
+Proof.
+  induction pre as [|a pre IH]; intros pinc pign ptags s post inc ign t Hl Ht.
+  - cbn [app length nth ignore_table_from]. rewrite Hl, Ht. reflexivity.
+  - cbn [app length nth ignore_table_from].
+    destruct (match is_lists a with Some x => x | None => (pinc, pign) end) as [ai ag].
+    cbn [nth]. apply IH; assumption.
+Qed.
+
+(* C19 / C17: a source that gives its own lists and tags ignores exactly its own ignore
+   patterns, the standard ones and the patterns of ITS OWN non-http tags - whatever the
+   other sources of the sender say *)
+Theorem ignore_row_own : forall pre s post inc ign t,
+  is_lists s = Some (inc, ign) -> is_tags s = Some t ->
+  nth (length pre) (ignore_table (pre ++ s :: post)) ([], []) =
+  (inc, ign ++ [STD_LCK; STD_DISABLED] ++ map fst (filter snd t)).
+Proof. intros. apply ignore_row_own_from; assumption. Qed.
+
+(* ... and one that inherits the lists still gets the patterns of its own tags, not the
+   predecessor's *)
+Theorem ignore_row_inherited_lists : forall s0 s1 post inc ign t0 t1,
+  is_lists s0 = Some (inc, ign) -> is_tags s0 = Some t0 ->
+  is_lists s1 = None -> is_tags s1 = Some t1 ->
+  nth 1 (ignore_table (s0 :: s1 :: post)) ([], []) =
+  (inc, ign ++ [STD_LCK; STD_DISABLED] ++ map fst (filter snd t1)) /\
+  nth 0 (ignore_table (s0 :: s1 :: post)) ([], []) =
+  (inc, ign ++ [STD_LCK; STD_DISABLED] ++ map fst (filter snd t0)).
+Proof.
+  intros s0 s1 post inc ign t0 t1 H0 H0t H1 H1t.
+  unfold ignore_table. cbn [ignore_table_from nth]. rewrite H0, H0t, H1, H1t. split; reflexivity.
+Qed.
+
+Example ignore_table_two_sources :
+  ignore_table [mkis (Some ([1; 2], [3; 4; 5])) (Some [(200, false); (201, true)]);
+                mkis None (Some [(200, false); (202, true)])] =
+  [([1; 2], [3; 4; 5; 100; 101; 201]); ([1; 2], [3; 4; 5; 100; 101; 202])].
+Proof. reflexivity. Qed.
